@@ -151,7 +151,7 @@ pub fn run(ctx: &Ctx) -> (Report, Meta) {
     .floor("terminal_cases_checked", 40)
     .floor("boundary_coincidences", 300);
 
-    let n = ctx.size(40_000, 3_000_000);
+    let n = ctx.size(160_000, 3_000_000);
     let rep = par_for(n, "C05", |i, rep| {
         let case_id = format!("case/{}", i);
         if !ctx.want(&case_id) {
